@@ -61,7 +61,7 @@ func DryRun(sc *Scenario) (st DryStat) {
 	st.Writes = s.Conn.Writes() - w0
 	st.Want = res
 	st.CmdAt = -1
-	if sc.PrivErrOK && s.CLI != nil {
+	if sc.UserCmd != "" && s.CLI != nil {
 		s.Conn.Do(func() {
 			for i, l := range s.CLI.Lines {
 				if l.Line == sc.UserCmd && i < len(s.CLI.Spans) && s.CLI.Spans[i].EchoS >= st.Base {
